@@ -167,6 +167,28 @@ def run_shard(spec, res):
                         ann = a.annotations[0] if a.annotations else None
                         if ann is not None and type(ann).__eq__ is not object.__eq__ and a is not a2:
                             res.violation({"kind": "hashcons", "what": "same-request-two-objects", "node": repr(a)[:200], "observed": repr(v)})
+        # the order of the annotations is part of an expression (get_annotation returns the first of a kind, the VSA
+        # backend applies them in sequence)
+        for h in hosts:
+            for mk1, mk2 in ((U, U), (U, UR), (UR, UR), (lambda v: SIA(1, 0, v), lambda v: SIA(1, 0, v))):
+                try:
+                    t1, t2 = mk1(1), mk2(2)
+                    ab = h.annotate(t1, t2)
+                    ba = h.annotate(t2, t1)
+                    ab2 = h.annotate(t1).annotate(t2)
+                    ins = h.annotate(t1).insert_annotation(t2) if hasattr(h, "insert_annotation") else ba
+                except Exception as e:  # noqa: BLE001
+                    res.count("annotate_raised:" + type(e).__name__)
+                    continue
+                keep += [ab, ba, ab2, ins]
+                res.case(["annotation-order", h.op, type(t1).__name__, type(t2).__name__], True)
+                res.count("annotation_order_pairs")
+                k_ab = [newmon.ckey(x) for x in ab.annotations]
+                k_ba = [newmon.ckey(x) for x in ba.annotations]
+                if ab is ba or k_ab == k_ba or k_ab != [newmon.ckey(t1), newmon.ckey(t2)] or k_ba != [newmon.ckey(t2), newmon.ckey(t1)]:
+                    res.violation({"kind": "hashcons", "what": "annotation-order-not-kept-apart", "node": repr(h)[:100], "observed": [repr(ab.annotations), repr(ba.annotations), ab is ba]})
+                elif [newmon.ckey(x) for x in ins.annotations] != [newmon.ckey(t2), newmon.ckey(t1)]:
+                    res.violation({"kind": "hashcons", "what": "annotation-order-not-kept-apart", "node": repr(h)[:100], "observed": ["insert_annotation", repr(ins.annotations)]})
         flush("collide")
         # literal arguments differing only in type / sign / size
         pairs = [
